@@ -292,8 +292,9 @@ impl<'a, F: Spill> ConvergenceMap<'a, F> {
     fn load_block_from_disk(&mut self, root_idx: usize) -> Result<usize, ClientError> {
         let loaded = self.read_block_from_disk(root_idx)?;
 
-        // Remove from root index — data is now in memory.
-        self.storage.root.swap_remove(root_idx);
+        // Remove from root index — data is now in memory. Keep the order of
+        // the remaining entries: `should_continue` scans them by position.
+        self.storage.root.remove(root_idx);
 
         // Evict LRU to disk, then replace it with the loaded block.
         self.spill_lru()?;
@@ -401,16 +402,24 @@ impl<'a, F: Spill> ConvergenceMap<'a, F> {
 
         // Check spilled blocks on disk.
         {
+            // Only the blocks that were on disk when the lookup started need
+            // scanning. Loading one evicts an in-memory block, which is
+            // appended to the root index; those blocks have already been
+            // searched, and rescanning them would never terminate when
+            // `location` is not a convergence point.
+            let mut end = self.storage.root.len();
             let mut ri = 0;
-            while ri < self.storage.root.len() {
+            while ri < end {
                 let node = self.storage.root[ri];
                 if location.max_cut >= node.min_max_cut && location.max_cut <= node.max_max_cut {
-                    // Load block into memory (removes root[ri] via swap_remove).
+                    // Load block into memory (removes root[ri], shifting the
+                    // remaining entries down by one).
                     let bi = self.load_block_from_disk(ri)?;
+                    end = end.checked_sub(1).assume("end > ri >= 0")?;
                     if let Some(ei) = self.storage.blocks[bi].find(location) {
                         return self.consume_entry(bi, ei);
                     }
-                    // Don't increment ri — swap_remove moved a new entry here.
+                    // Don't increment ri — the next entry moved here.
                 } else {
                     ri = ri.checked_add(1).assume("ri must not overflow")?;
                 }
